@@ -14,3 +14,29 @@ package subscription
 //@ params s, clientID
 //@ modifies ghost(s.$unsubAlls), ghost(s.$lastUnsubAll)
 //@ ensures s.$unsubAlls == old(s.$unsubAlls) + 1 && s.$lastUnsubAll == clientID
+
+// Subscribe as used by the broker core (one subscription per call): $subs counts the calls, $lastSubClient /
+// $lastSub are the arguments of the last one. On success the result has one entry, for the subscription handed in.
+//@ ghost field (Store).subs int
+//@ ghost field (Store).lastSubClient string
+//@ ghost field (Store).lastSub *gmqtt.Subscription
+
+//@ func (Store).Subscribe
+//@ params s, clientID, subscriptions
+//@ requires len(subscriptions) == 1 && subscriptions[0] != nil
+//@ modifies ghost(s.$subs), ghost(s.$lastSubClient), ghost(s.$lastSub)
+//@ ensures s.$subs == old(s.$subs) + 1 && s.$lastSubClient == clientID && s.$lastSub == subscriptions[0]
+//@ ensures result1 == nil ==> len(result0) == 1 && result0[0].Subscription == subscriptions[0]
+
+// SplitTopic: "$share/<group>/<filter>" -> (group, filter); anything else -> ("", topic). shareOf / filterOf name
+// the two results (string functions are outside the engine's theory: trusted).
+//@ spec func shareOf(topic string) string = ?
+//@ spec func filterOf(topic string) string = ?
+//@ func SplitTopic trusted pure
+//@ ensures result0 == shareOf(topic) && result1 == filterOf(topic)
+
+// FromTopic: the subscription a SUBSCRIBE topic entry asks for.
+//@ func FromTopic
+//@ props C07 C11 C14
+//@ ensures [C14] result != nil && isfresh(result) && result.ShareName == shareOf(topic.Name) && result.TopicFilter == filterOf(topic.Name) && result.ID == id
+//@ ensures [C14] result.QoS == topic.Qos && result.NoLocal == topic.NoLocal && result.RetainAsPublished == topic.RetainAsPublished && result.RetainHandling == topic.RetainHandling
